@@ -1404,12 +1404,12 @@ func main() {
 	for _, c := range p.leniencyProbes() {
 		runMalformed(run, c)
 	}
-	nv := run.Scale(3000, 40000)
+	nv := run.Scale(3000, 30000)
 	for i := 0; i < nv; i++ {
 		m := p.genEvent(run.RNG, kinds[i%len(kinds)])
 		runValue(run, theCase{Kind: "value", Ev: &m, H: genH(run.RNG)})
 	}
-	nm := run.Scale(7000, 80000)
+	nm := run.Scale(7000, 60000)
 	for i := 0; i < nm; i++ {
 		r := run.RNG
 		var a mABCI
@@ -1436,7 +1436,7 @@ func main() {
 		run.Dist["mutation:"+mk]++
 		runMalformed(run, theCase{Kind: "malformed", ABCI: &a, H: genH(r), Note: note})
 	}
-	nl := run.Scale(400, 4000)
+	nl := run.Scale(400, 3000)
 	for i := 0; i < nl; i++ {
 		r := run.RNG
 		n := r.Intn(7)
